@@ -552,7 +552,12 @@ def collect_variable_lookup(
                 len(closure_cells), len(freevars))
 
         for cell, freevar in zip(closure_cells, freevars):
-            closure_dict[freevar] = cell.cell_contents
+            try:
+                closure_dict[freevar] = cell.cell_contents
+            except ValueError:
+                # The cell is empty: the variable of the enclosing scope is not bound (yet). The condition
+                # can not have read it either, so there is no value to be represented.
+                continue
 
     variable_lookup.append(closure_dict)
 
